@@ -20,13 +20,14 @@ def plan(tier, seed):
         conds += t1_conds("c18", "full", 3, 44, sep="crlf", timeout=1500)
         conds += t2_conds("c18", 4, timeout=2400, split=6)
         b3 = "full vocabulary N=3 (LF and CRLF); every command K=4"
+    conds += t4_conds("c18", timeout=280 if q else 1500, quick=q)
     meta = dict(functions=["sievelib.parser.Lexer.curlineno", "sievelib.parser.Lexer.curcolno", "sievelib.parser.Lexer.scan",
                            "sievelib.parser.Parser.parse (error / error_pos assembly)"] + PARSER_FUNCS[2:],
                 bounds={"U1": "every byte string of length <= %d and every position" % (4 if q else 6),
                         "U2": "%d valid multi-line prefixes (comments, multi-byte text) x 0-3 blank lines x 0-3 leading spaces x "
                               "LF/CRLF x %d offending tokens (every class in the statement) x %d different continuations"
                               % (H.NP, H.NO, len(H.SUFFIXES)),
-                        "U3 (other rejections)": b3},
+                        "U3 (other rejections)": b3 + "; " + T4_BOUND},
                 outside=["scripts larger than the templates", "columns count bytes, as the statement says"],
                 assumptions=COMMON_ASSUME[:3] + ["U2: with CRLF line ends the prefix that contains a text: block is replaced by an "
                                                  "equivalent one with a quoted string (text: + CRLF is a known finding of C01)"],
